@@ -29,7 +29,18 @@ CRV_ID = {"secp256r1": 1, "secp384r1": 2, "secp521r1": 3}
 CRV_LEN = {"secp256r1": 32, "secp384r1": 48, "secp521r1": 66}
 
 
+_KEYS_IN_MEMORY = {}
+
+
 def _load_or_make(name, make):
+    if name in _KEYS_IN_MEMORY:          # (loading an RSA key costs ~20 ms of consistency checks; key objects are immutable)
+        return _KEYS_IN_MEMORY[name]
+    k = _load_or_make_uncached(name, make)
+    _KEYS_IN_MEMORY[name] = k
+    return k
+
+
+def _load_or_make_uncached(name, make):
     os.makedirs(KEYDIR, exist_ok=True)
     p = os.path.join(KEYDIR, name + ".pem")
     if os.path.exists(p):
